@@ -323,6 +323,42 @@ def Img.purge (g : Img) (ci ct : Nat) (keepBoundary : Bool) : Img :=
 def Img.reset (g : Img) : Img := { g with ents := [] }
 def Img.lastIndex (g : Img) : Nat := lastIdx g.ents
 
+/-! ### `FileLogStore` at record level (d-engine-server/src/storage/adaptors/file/file_storage_engine.rs)
+`log.data` is a sequence of records in write order; `index_end_pos` maps an index to the end of its latest record;
+`truncate`/`replace_range` cut the file at the end of the last record *before* `from_index`; `load_from_file` replays
+the records, the last record of an index wins. Positions are counted in records (all records of a well-formed
+stream have the same length). The in-memory `entries` map of the store is the reference image `Store.v`. -/
+
+structure FileImg where
+  recs : List Entry := []
+  endPos : List (Nat × Nat) := []
+deriving Repr, Inhabited, DecidableEq
+
+def FileImg.appendRec (f : FileImg) (e : Entry) : FileImg :=
+  let recs := f.recs ++ [e]
+  { recs := recs, endPos := amSet f.endPos e.index recs.length }
+
+def FileImg.persist (f : FileImg) : List Entry → FileImg
+  | [] => f
+  | e :: es => FileImg.persist (f.appendRec e) es
+
+/-- `end_pos_before(from)`: end position of the largest index below `from` (0 if none) -/
+def endPosBefore (ep : List (Nat × Nat)) (d : Nat) : Nat :=
+  match (ep.filter (fun p => p.1 < d)).foldl (fun (best : Option (Nat × Nat)) p =>
+      match best with | some b => if b.1 < p.1 then some p else some b | none => some p) none with
+  | some b => b.2
+  | none => 0
+
+def FileImg.replaceRange (f : FileImg) (d : Nat) (es : List Entry) : FileImg :=
+  let cut := endPosBefore f.endPos d
+  FileImg.persist { recs := f.recs.take cut, endPos := f.endPos.filter (fun p => p.1 < d) } es
+
+/-- `purge`: the file is rewritten from the kept entries of the in-memory map, in index order -/
+def FileImg.rewrite (kept : List Entry) : FileImg := FileImg.persist {} kept
+
+/-- `load_from_file`: (entries map, rebuilt position index) -/
+def FileImg.reload (f : FileImg) : List Entry × FileImg := (insertAll [] f.recs, FileImg.persist {} f.recs)
+
 /-- `BufferedRaftLog::new`: load `1..=last_index`, rebuild the indexes, restore the purge boundary. -/
 def Buf.load (g : Img) : Buf :=
   let diskLen := g.lastIndex
@@ -357,9 +393,21 @@ structure Sys where
   alive : Bool := true
   /-- engine flavour: does the store persist the purge boundary (reference store: yes, FileLogStore: no) -/
   keepBoundary : Bool := true
+  /-- `some` = the store is the real `FileLogStore` (record-level image of `log.data`) -/
+  file : Option FileImg := none
 deriving Repr, Inhabited
 
 namespace Sys
+
+def stPersist (s : Sys) (es : List Entry) : Sys :=
+  { s with store := { s.store with v := s.store.v.persist es }, file := s.file.map (·.persist es) }
+def stReplace (s : Sys) (d : Nat) (es : List Entry) : Sys :=
+  { s with store := { s.store with v := s.store.v.replaceRange d es }, file := s.file.map (·.replaceRange d es) }
+def stPurge (s : Sys) (ci ct : Nat) : Sys :=
+  let v := s.store.v.purge ci ct s.keepBoundary
+  { s with store := { s.store with v := v }, file := s.file.map (fun _ => FileImg.rewrite v.ents) }
+def stReset (s : Sys) : Sys :=
+  { s with store := { s.store with v := s.store.v.reset }, file := s.file.map (fun _ => {}) }
 
 /-- persist `(durable, max]` (the common prologue of the three arms) -/
 def persistPending (s : Sys) : Sys :=
@@ -368,17 +416,16 @@ def persistPending (s : Sys) : Sys :=
   if lo ≤ hi then
     let es := s.buf.getRange lo hi
     if es.isEmpty then s
-    else { s with store := { s.store with v := s.store.v.persist es }, pendingMax := max s.pendingMax hi }
+    else { s.stPersist es with pendingMax := max s.pendingMax hi }
   else s
 
 /-- `handle_non_write_cmd` (the reference store never fails) -/
 def handleCmd (s : Sys) : IOCmd → Sys
   | .replace d es =>
     let maxI := match es.getLast? with | some e => e.index | none => 0
-    { s with store := { s.store with v := s.store.v.replaceRange d es },
-             pendingMax := if maxI > 0 then max s.pendingMax maxI else s.pendingMax }
-  | .purge ci ct => { s with store := { s.store with v := s.store.v.purge ci ct s.keepBoundary } }
-  | .reset => { s with store := { s.store with v := s.store.v.reset }, pendingMax := 0 }
+    { s.stReplace d es with pendingMax := if maxI > 0 then max s.pendingMax maxI else s.pendingMax }
+  | .purge ci ct => s.stPurge ci ct
+  | .reset => { s.stReset with pendingMax := 0 }
   | _ => s
 
 /-- `advance_durable_after_write(pending_max)`: `flush()` then `fetch_max`; then `pending_max = 0` -/
@@ -410,7 +457,7 @@ def ioArm (s : Sys) : Arm → Sys
          if s.pendingMax < cur then
            (let es := s.buf.getRange (s.pendingMax + 1) cur
             if es.isEmpty then s
-            else { s with store := { s.store with v := s.store.v.persist es }, pendingMax := cur })
+            else { s.stPersist es with pendingMax := cur })
          else s)
       else s
     let s := s.fsyncAdvance
@@ -479,8 +526,14 @@ def closeMain (s : Sys) : Sys := match s.enqueue .shutdown with | some s' => s' 
 
 /-- `BufferedRaftLog::new` over the image that survived the crash -/
 def reopen (s : Sys) (power : Bool) : Sys :=
-  let img := if power then s.store.d else s.store.v
-  { buf := Buf.load img, store := { v := img, d := s.store.d }, keepBoundary := s.keepBoundary }
+  match s.file with
+  | none =>
+    let img := if power then s.store.d else s.store.v
+    { buf := Buf.load img, store := { v := img, d := s.store.d }, keepBoundary := s.keepBoundary }
+  | some f =>
+    let (ents, f') := f.reload
+    let img : Img := { ents := ents, boundary := none }
+    { buf := Buf.load img, store := { v := img, d := s.store.d }, keepBoundary := s.keepBoundary, file := some f' }
 
 end Sys
 
@@ -510,6 +563,10 @@ deriving Repr, DecidableEq
 /-- the clock is advanced before the operation when the timer arm is meant to win -/
 def preClock (s : Sys) (first : Arm) : Sys := if first = .timer then { s with timerDue := true } else s
 
+/-- with `~` the harness polls the IO loop at the end of the operation even if the operation did not wait, so that
+    the due timer tick never leaks into the next operation -/
+def pollIfTimer (s : Sys) (first : Arm) : Sys := if first = .timer then s.ioRun .timer else s
+
 /-- Execute one case operation: main-thread part, then (if it waits) the IO loop polled until idle. -/
 def execOp (s : Sys) : Op → Sys × Res × String
   | .append es => (s.append es, .ok, if es.isEmpty then "append-empty" else "append")
@@ -518,33 +575,33 @@ def execOp (s : Sys) : Op → Sys × Res × String
     match fcaDecide s.buf prevI prevT es with
     | (.reset, tag) =>
       (match s.resetMain with
-       | none => ({ s with buf := s.buf.resetMem }, .err, tag ++ "-dead")
+       | none => (pollIfTimer { s with buf := s.buf.resetMem } first, .err, tag ++ "-dead")
        | some s1 =>
          let s2 := s1.ioRun first
-         (s2.append es, .fcaRes (lastId es), tag))
-    | (.mismatch, tag) => (s, .fcaRes s.buf.lastLogId, tag)
-    | (.noop, tag) => (s, .fcaRes (lastId es), tag)
-    | (.appendTail tail, tag) => (s.append tail, .fcaRes (lastId tail), tag)
+         (pollIfTimer (s2.append es) first, .fcaRes (lastId es), tag))
+    | (.mismatch, tag) => (pollIfTimer s first, .fcaRes s.buf.lastLogId, tag)
+    | (.noop, tag) => (pollIfTimer s first, .fcaRes (lastId es), tag)
+    | (.appendTail tail, tag) => (pollIfTimer (s.append tail) first, .fcaRes (lastId tail), tag)
     | (.replace d tail, tag) =>
       let s1 := { s with buf := s.buf.replaceMem d tail }
       (match s1.enqueue (.replace d tail) with
-       | none => (s1, .err, tag ++ "-dead")
+       | none => (pollIfTimer s1 first, .err, tag ++ "-dead")
        | some s2 => (s2.ioRun first, .fcaRes (lastId tail), tag))
   | .purge ci ct first =>
     let s := preClock s first
     (match s.purgeMain ci ct with
-     | none => ({ s with buf := s.buf.purgeMem ci ct }, .err, "purge-dead")
+     | none => (pollIfTimer { s with buf := s.buf.purgeMem ci ct } first, .err, "purge-dead")
      | some s1 => (s1.ioRun first, .ok, "purge"))
   | .reset first =>
     let s := preClock s first
     (match s.resetMain with
-     | none => ({ s with buf := s.buf.resetMem }, .err, "reset-dead")
+     | none => (pollIfTimer { s with buf := s.buf.resetMem } first, .err, "reset-dead")
      | some s1 => (s1.ioRun first, .ok, "reset"))
   | .flush first =>
     let s := preClock s first
     (match s.flushMain with
-     | none => (s, .err, "flush-dead")
-     | some (s1, false) => (s1, .ok, "flush-short-circuit")
+     | none => (pollIfTimer s first, .err, "flush-dead")
+     | some (s1, false) => (pollIfTimer s1 first, .ok, "flush-short-circuit")
      | some (s1, true) => (s1.ioRun first, .ok, "flush-io"))
   | .alloc n => let (b, r) := s.buf.alloc n; ({ s with buf := b }, .range r, "alloc")
   | .get lo hi => (s, .ents (s.buf.getRange lo hi), "get")
